@@ -47,6 +47,7 @@ pub fn decode_level(u: &mut Un) -> (Level, Vec<(String, Ty, bool)>) {
     let cfg = ConvCfg {
         max_named: 5,
         max_depth: 2,
+        usage_fallback: true,
         ..ConvCfg::default()
     };
     let mut level = gen_conv_level(u, &mut names, &cfg, 1);
@@ -365,8 +366,16 @@ impl Prop for C18 {
                     Ok(c) => {
                         ctx.eval(1);
                         // the child has an application name, which only shows in usage lines
+                        let child_out: Vec<u8> = if matches!(got, Outcome::Stdout { .. }) {
+                            String::from_utf8_lossy(&c.stdout)
+                                .replacen("Usage: subject ", "Usage: ", 1)
+                                .replacen("Usage: subject\n", "Usage: \n", 1)
+                                .into_bytes()
+                        } else {
+                            c.stdout.clone()
+                        };
                         let same = c.code == Some(code)
-                            && (matches!(got, Outcome::Stderr(_)) || c.stdout == o)
+                            && (matches!(got, Outcome::Stderr(_)) || child_out == o)
                             && (c.stderr == e || matches!(got, Outcome::Stderr(_)));
                         if !same {
                             return Verdict::fail(
